@@ -111,7 +111,7 @@ def run_case(case):
                         fct = sy_ / sx_ if sx_ else 1.0
                         # (a record loaded from a results file carries whatever charge it was stored with: the factor is
                         # then 1/charge instead of a rounding-level correction; proportionality is still required)
-                        if abs(fct - 1) > (0.5 if case.get("startleg") else 1e-6) or np.abs(y[bb] - fct * x[bb]).max() > 3e-7 * np.abs(x[bb]).max():
+                        if (not (1e-3 < fct < 1e3) if case.get("startleg") else abs(fct - 1) > 1e-6) or np.abs(y[bb] - fct * x[bb]).max() > 3e-7 * np.abs(x[bb]).max():
                             okf = False
                     if okf:
                         cls.append("initial_snapshot_vs_step0")
